@@ -33,8 +33,17 @@ def named(kind, nm):
 
 
 class SExc:
-    def __init__(self, name, args=(), line=None, origin=None):
-        self.name, self.args, self.line, self.origin = name, list(args), line, origin
+    def __init__(self, name, args=(), line=None, origin=None, rid=None):
+        self.name, self.args, self.line, self.origin, self.rid = name, list(args), line, origin, rid
+
+    @property
+    def tag(self):
+        """stable label for obligation names: ordinal of the raise statement, or the callee it came from"""
+        if self.rid is not None:
+            return f"{self.name}.raise{self.rid}"
+        if self.origin:
+            return f"{self.name}.from.{str(self.origin).split(':')[-1]}"
+        return self.name
 
     def __repr__(self):
         return f"{self.name}@{self.line}"
